@@ -582,13 +582,20 @@ func (w *World) Manifest(height base.Height, suffrage util.Hash) isaac.Manifest 
 	return isaac.NewManifest(height, w.Hash(), w.Hash(), w.optHash(), w.optHash(), suffrage, w.Time())
 }
 
-func (w *World) BlockMap(m base.Manifest) isaacblock.BlockMap {
+// AllBlockItemTypes: every value BlockItemType.IsValid accepts (base/block.go), incl. "map".
+var AllBlockItemTypes = []base.BlockItemType{
+	base.BlockItemMap, base.BlockItemProposal, base.BlockItemOperations, base.BlockItemOperationsTree,
+	base.BlockItemStates, base.BlockItemStatesTree, base.BlockItemVoteproofs,
+}
+
+func (w *World) BlockMap(m base.Manifest) isaacblock.BlockMap { return w.BlockMapWith(m, false) }
+
+// BlockMapWith: all=true carries an item of every valid type; otherwise the optional ones (map, operations,
+// states) are left out now and then.
+func (w *World) BlockMapWith(m base.Manifest, all bool) isaacblock.BlockMap {
 	bm := isaacblock.NewBlockMap()
-	for _, t := range []base.BlockItemType{
-		base.BlockItemProposal, base.BlockItemOperations, base.BlockItemOperationsTree,
-		base.BlockItemStates, base.BlockItemStatesTree, base.BlockItemVoteproofs,
-	} {
-		if (t == base.BlockItemOperations || t == base.BlockItemStates) && w.R.Chance(1, 4) {
+	for _, t := range AllBlockItemTypes {
+		if !all && ((t == base.BlockItemOperations || t == base.BlockItemStates) && w.R.Chance(1, 4) || t == base.BlockItemMap && w.R.Bool()) {
 			continue
 		}
 		must(bm.SetItem(isaacblock.NewBlockMapItem(t, w.Str("checksum-"))))
